@@ -57,6 +57,28 @@ def spec_gamma(d, norb, entries, Mmodes):
     return parse_vec(d.ask(f"gamma {norb} {fmt_vec(entries)} {flat}"))
 
 
+def compound_expect(norb, entries, Ma, Mb, dets):
+    """Gamma(Ma (+) Mb) psi on one (n_alpha, n_beta) sector by minors, in FQE's determinant convention:
+    C'[a', b'] = sum_{a,b} det(Ma[a', a]) det(Mb[b', b]) C[a, b]  (rows/columns = occupied orbitals, ascending).
+    The interleaving and reversal signs of the embedding cancel inside one sector (Props/C07 C07_sector_sign);
+    the formula is validated against the Lean Spec (`gamma`) on every small case before it is used on sectors too
+    large for the exact driver."""
+    occ = lambda s: [i for i in range(norb) if s >> i & 1]
+    out = {}
+    cache_a, cache_b = {}, {}
+    for (a2, b2) in dets:
+        tot = 0
+        for a, b, c in entries:
+            ka, kb = (a2, a), (b2, b)
+            if ka not in cache_a:
+                cache_a[ka] = numpy.linalg.det(Ma[numpy.ix_(occ(a2), occ(a))]) if occ(a) else 1.0
+            if kb not in cache_b:
+                cache_b[kb] = numpy.linalg.det(Mb[numpy.ix_(occ(b2), occ(b))]) if occ(b) else 1.0
+            tot += cache_a[ka] * cache_b[kb] * c
+        out[(a2, b2)] = tot
+    return out
+
+
 def run(ctx):
     fqe = ctx.fqe
     import props.C01 as C01
@@ -108,6 +130,14 @@ def run(ctx):
         if bad:
             ctx.disagree(f"transform:{form}", f"transform differs from Gamma((R P)^dagger) psi on {len(bad)} determinants, e.g. {bad[0]}", desc)
             continue
+        if wk == "single" and form in ("restricted", "blockdiag"):
+            # validate the numpy compound-matrix formula (used below for large sectors) against the exact Spec
+            Ma, Mb = (Mblk, Mblk) if form == "restricted" else (Mblk[:norb, :norb], Mblk[norb:, norb:])
+            ce = compound_expect(norb, entries, Ma, Mb, U.wfn_dets(w))
+            worst = max(abs(ce[k] - complex(float(want.get(k, (0, 0))[0]), float(want.get(k, (0, 0))[1]))) for k in ce)
+            ctx.count("compound-formula-validated")
+            if worst > 1e-9:
+                ctx.disagree("harness:compound-formula", f"numpy compound formula differs from the Lean Spec by {worst:.2e}", desc)
         if not numpy.allclose(low @ upp, Mblk, atol=1e-10):
             ctx.disagree(f"transform:factors:{form}", "reported L U != (R P)^dagger", desc)
         if abs(out.norm() - 1) > 1e-9:
@@ -121,6 +151,40 @@ def run(ctx):
                 ctx.disagree(f"transform:back:{form}", f"adjoint transform with the reported factors does not restore the input ({diff:.2e})", desc)
         except Exception as exc:
             ctx.disagree(f"transform-back-raises:{form}:{type(exc).__name__}", str(exc), desc)
+
+
+    # ---- sectors wider than the internal column batch (ZAXPY_STRIDE = 450): lenb = 462 ---------------------
+    for case in range(2 if quick else 8):
+        norb, na, nb = rng.choice([(11, 1, 5), (11, 5, 1), (11, 0, 5), (11, 6, 1)])
+        w = fqe.Wavefunction([[na + nb, na - nb, norb]])
+        dets = U.wfn_dets(w)
+        data = numpy.zeros(w.get_coeff((na + nb, na - nb)).shape, dtype=numpy.complex128)
+        chosen = rng.sample(range(len(dets)), 3)
+        idx = {dd: k for k, dd in enumerate(dets)}
+        sec = w.sector((na + nb, na - nb))
+        astr = [int(x) for x in sec._core.string_alpha_all()]
+        bstr = [int(x) for x in sec._core.string_beta_all()]
+        for k in chosen:
+            a, b = dets[k]
+            data[astr.index(a), bstr.index(b)] = complex(rng.randint(1, 3), rng.randint(-2, 2))
+        w.set_wfn(strategy="from_data", raw_data={(na + nb, na - nb): data})
+        w.normalize()
+        entries = U.wfn_entries(w)
+        R = rand_unitary(nr, norb, rng.choice(["generic", "real", "pivot"]))
+        desc = {"form": "restricted-wide", "norb": norb, "nalpha": na, "nbeta": nb, "case": case}
+        try:
+            perm, low, upp, out = copy.deepcopy(w).transform(R.copy())
+        except Exception as exc:
+            ctx.disagree(f"transform-raises:wide:{type(exc).__name__}", str(exc)[:200], desc)
+            continue
+        M = (R @ perm).conj().T
+        exp = compound_expect(norb, entries, M, M, dets)
+        got = U.wfn_dict(out)
+        worst = max(abs(got[k] - exp[k]) for k in got)
+        ctx.case(("transform-wide", case))
+        ctx.count("form:restricted-wide")
+        if worst > 1e-8:
+            ctx.disagree("transform:wide-sector", f"transform on a {len(astr)} x {len(bstr)} sector differs from Gamma((R P)^dagger) psi by {worst:.2e}", desc)
 
 
 def replay(ctx, rep):
